@@ -499,3 +499,46 @@ def f1(ctx):
                                   "`%s` in `%s` depends on %s rather than on `name` only: an operation on one member can touch another"
                                   % (src(e), node_desc(n), sorted(params) or "no parameter")))
     return obs
+
+
+# ---------------------------------------------------------------------------- W1 / W2
+
+@rule("C01", "W1", floor=9, kind="N",
+      desc="writes to one collection exclude each other: index read-modify-write, working-tree change and commit of the "
+           "tree store happen under the index lock (same obligations as C05/L0) - otherwise a write to one member can undo another")
+def w1(ctx):
+    from .c05 import l0
+    return l0(ctx)
+
+
+@rule("C01", "W2", floor=2, kind="N",
+      desc="an acknowledged write is performed: _import_one returns normally only after the commit, or through the "
+           "'unchanged' side of the comparison of the new and the old object id")
+def w2(ctx):
+    from .c09 import BARE, TREE, _commit_nodes, _is_change_test
+    obs = []
+    for cq in (BARE, TREE):
+        fi = ctx.own_method(cq, "_import_one")
+        cfg = ctx.cfg(fi)
+        du = DefUse(cfg)
+        commits = _commit_nodes(cfg)
+        if not commits:
+            raise AnalysisError("%s._import_one: no _commit_tree call" % cq)
+        index_vars = {d.name for n in cfg.nodes for d in du.defs_at.get(n.id, []) if d.kind == "with"}
+        unchanged_edges = []
+        for n in cfg.nodes:
+            if n.kind != "test":
+                continue
+            lab = _is_change_test(n.ast, index_vars)
+            if lab:
+                other = "f" if lab == "t" else "t"
+                unchanged_edges.extend((n, m, l) for m, l in n.succ if l == other)
+        # block: commit nodes (completion) and the unchanged edges; the exit must then be unreachable
+        blocked = list(unchanged_edges) + [(c, m, l) for c in commits for m, l in c.succ if l != "exc"]
+        r = cfg.reachable([cfg.entry], block_edges=blocked, follow_exc=False)
+        ok = cfg.exit.id not in r
+        obs.append(ctx.ob(ok, fi.qualname, fi.where, "normal return implies committed or unchanged",
+                          "every normal path passes _commit_tree or the 'unchanged' side of the id comparison",
+                          "%s can return an etag without having committed and without the new/old id comparison saying 'unchanged': the write is "
+                          "acknowledged but never performed (e.g. when the blob happens to exist already)" % fi.short))
+    return obs
